@@ -1,0 +1,30 @@
+//go:build verif
+// +build verif
+
+package store
+
+import (
+	"bufio"
+	"io"
+	"os"
+
+	"github.com/douban/gobeansdb/vhook"
+)
+
+// vhookFile reports every write(2) on a data file to the verification hooks.
+type vhookFile struct {
+	fd   *os.File
+	path string
+}
+
+func (f *vhookFile) Write(p []byte) (n int, err error) {
+	off, _ := f.fd.Seek(0, io.SeekCurrent)
+	vhook.FS(vhook.Before, "write", f.path, off, int64(len(p)))
+	n, err = f.fd.Write(p)
+	vhook.FS(vhook.After, "write", f.path, off, int64(n))
+	return
+}
+
+func vhookWrapWriter(wbuf *bufio.Writer, fd *os.File, path string) *bufio.Writer {
+	return bufio.NewWriterSize(&vhookFile{fd, path}, wbuf.Size())
+}
